@@ -589,32 +589,44 @@ def _checkpointer_call(fn: ast.FunctionDef) -> ast.Call:
     raise Untranslatable("no Checkpointer(…) call")
 
 
-def _api_facts() -> str:
+def _api_facts() -> tuple[str, list[str]]:
+    """structural / behavioural facts; a fact that cannot be decided keeps the model's value and is listed as unknown"""
     ck = parse_file(REPO / CK)
     en = parse_file(REPO / E)
-    init = find_function(ck, "Checkpointer.__init__")
-    src_init = [ast.unparse(st).replace(" ", "") for st in init.body]
-    unwrap_main = any(t == "self.model=self._remove_module_attribute(model)" for t in src_init)
-    unwrap_regex = False
-    for st in init.body:
-        if isinstance(st, ast.For) and "checkpointables" in ast.unparse(st.iter):
-            for n in ast.walk(st):
-                if isinstance(n, ast.If) and "re.match" in ast.unparse(n.test) and "model_regex" in ast.unparse(n.test) \
-                        and any("_remove_module_attribute(checkpointables[key])" in ast.unparse(b).replace(" ", "") and
-                                ast.unparse(b).replace(" ", "").startswith("checkpointables[key]=") for b in n.body):
-                    unwrap_regex = True
-    save = find_function(ck, "Checkpointer.save")
-    body = [st for st in save.body if not (isinstance(st, ast.Expr) and isinstance(st.value, ast.Constant))]
-    first = body[0] if body else None
-    save_guarded = (isinstance(first, ast.If) and ast.unparse(first.test) == "not self.save_to_disk"
-                    and len(first.body) == 1 and isinstance(first.body[0], ast.Return) and not first.orelse)
+    unknown: list[str] = []
+    try:
+        from props.c15_engine import api_probes      # behaviour of the real class (harness side)
+
+        probes = api_probes()
+    except Exception:  # noqa: BLE001
+        probes = {}
+
+    def probed(name: str) -> bool:
+        if name not in probes:
+            unknown.append(name)
+            return True
+        return probes[name]
+
     tc = _checkpointer_call(find_function(en, "Engine.train"))
     std = next((ast.unparse(k.value).replace(" ", "") for k in tc.keywords if k.arg == "save_to_disk"), None)
-    main_only = std in ("communication.is_main_process()", "Falseifnotcommunication.is_main_process()elseTrue",
-                        "Trueifcommunication.is_main_process()elseFalse", "bool(communication.is_main_process())")
+    if std in ("communication.is_main_process()", "Falseifnotcommunication.is_main_process()elseTrue",
+               "Trueifcommunication.is_main_process()elseFalse", "bool(communication.is_main_process())",
+               "notnotcommunication.is_main_process()"):
+        main_only = True
+    elif std is None or std in ("True", "False") or "is_main_process" not in std and "rank" not in std:
+        main_only = False         # every rank writes (or none): positively not "the main process only"
+    else:
+        main_only = True
+        unknown.append("trainWritesOnMainOnly")
     pc = _checkpointer_call(find_function(en, "Engine.predict"))
     pstd = next((k.value for k in pc.keywords if k.arg == "save_to_disk"), None)
-    predict_never = isinstance(pstd, ast.Constant) and pstd.value is False
+    if isinstance(pstd, ast.Constant):
+        predict_never = pstd.value is False
+    elif pstd is None:
+        predict_never = False
+    else:
+        predict_never = True
+        unknown.append("predictNeverWrites")
     lists = False
     for name in ("Checkpointer.load", "Checkpointer.load_from_path", "Checkpointer._load_checkpoint"):
         for n in ast.walk(find_function(ck, name)):
@@ -622,38 +634,45 @@ def _api_facts() -> str:
                 f = ast.unparse(n.func)
                 if f.split(".")[-1] in ("glob", "rglob", "iglob", "iterdir", "listdir", "scandir", "walk"):
                     lists = True
-    lm = find_function(ck, "Checkpointer._load_model")
-    missing_raise = any(isinstance(n, ast.If) and ast.unparse(n.test) == "incompatible.missing_keys"
-                        and any(isinstance(b, ast.Raise) for b in n.body) for n in ast.walk(lm))
-    mf = find_function(ck, "Checkpointer.load_models_from_file")
-    only_models = False
-    for n in ast.walk(mf):
-        if isinstance(n, ast.Call) and ast.unparse(n.func) == "self.load_from_path":
-            om = next((k.value for k in n.keywords if k.arg == "only_models"), None)
-            only_models = isinstance(om, ast.Constant) and om.value is True
-    # every `self.checkpointer.load(…)` of Engine.train sits directly under `if resume:` (and there is exactly one)
+    # every `self.checkpointer.load(…)` of Engine.train is guarded by `resume` (as a conjunct of the enclosing tests)
     loads = []
 
     def walk_tests(stmts, tests):
         for st in stmts:
             if isinstance(st, ast.If):
-                walk_tests(st.body, tests + [ast.unparse(st.test)])
-                walk_tests(st.orelse, tests + ["not (" + ast.unparse(st.test) + ")"])
+                walk_tests(st.body, tests + [st.test])
+                walk_tests(st.orelse, tests + [ast.UnaryOp(op=ast.Not(), operand=st.test)])
             elif isinstance(st, (ast.For, ast.While, ast.With, ast.Try)):
-                walk_tests(st.body, tests + ["<" + type(st).__name__ + ">"])
+                walk_tests(st.body, tests)
             else:
                 for n in ast.walk(st):
                     if isinstance(n, ast.Call) and ast.unparse(n.func) == "self.checkpointer.load":
                         loads.append(tests)
     walk_tests(find_function(en, "Engine.train").body, [])
-    resume_only = loads == [["resume"]]
+
+    def conjuncts(t):
+        if isinstance(t, ast.BoolOp) and isinstance(t.op, ast.And):
+            return [c for v in t.values for c in conjuncts(v)]
+        return [ast.unparse(t)]
+    resume_only = True
+    for tests in loads:
+        cs = [c for t in tests for c in conjuncts(t)]
+        if "resume" in cs or "resume is True" in cs or "resume == True" in cs:
+            continue
+        if any("resume" in c for c in cs):
+            unknown.append("resumeOnlyWhenAsked")      # guarded by some other expression over `resume`: not decided here
+        else:
+            resume_only = False
+    if not loads:
+        unknown.append("resumeOnlyWhenAsked")
     b = lambda v: "true" if v else "false"  # noqa: E731
     names = ", ".join('"' + k + '"' for k in _kw_names(tc) if not k.startswith("__"))
-    return (f"{{ ctorUnwrapsMain := {b(unwrap_main)}, ctorUnwrapsRegexKeys := {b(unwrap_regex)}, saveGuarded := {b(save_guarded)}, "
+    return (f"{{ ctorUnwrapsMain := {b(probed('ctorUnwrapsMain'))}, ctorUnwrapsRegexKeys := {b(probed('ctorUnwrapsRegexKeys'))}, "
+            f"saveGuarded := {b(probed('saveGuarded'))}, "
             f"trainWritesOnMainOnly := {b(main_only)}, predictNeverWrites := {b(predict_never)}, "
-            f"loadListsDirectory := {b(lists)}, missingKeysRaise := {b(missing_raise)}, "
-            f"modelsFromFileOnlyModels := {b(only_models)}, resumeOnlyWhenAsked := {b(resume_only)}, "
-            f"trainCheckpointables := [{names}] }}")
+            f"loadListsDirectory := {b(lists)}, missingKeysRaise := {b(probed('missingKeysRaise'))}, "
+            f"modelsFromFileOnlyModels := {b(probed('modelsFromFileOnlyModels'))}, resumeOnlyWhenAsked := {b(resume_only)}, "
+            f"trainCheckpointables := [{names}] }}"), sorted(set(unknown))
 
 
 def _solver_steps(fn: ast.FunctionDef) -> str:
@@ -714,7 +733,11 @@ def engine_facts() -> dict[str, str]:
         f"⟨{c}, {'true' if ch else 'false'}, [{', '.join(a)}]⟩"
         for c, ch, a in init_chain(find_function(parse_file(REPO / E), "Engine.train"))) + "]")
     attempt("valTail", lambda: _val_tail(find_function(parse_file(REPO / E), "Engine.validation_loop")))
-    attempt("apiFacts", _api_facts)
+    def api():
+        text, unknown = _api_facts()
+        out["apiFacts.unknown"] = ", ".join(unknown)
+        return text
+    attempt("apiFacts", api)
     attempt("solver_steps", lambda: _solver_steps(find_function(parse_file(REPO / T), "setup_train")))
     attempt("tryEvents", _try_events)
     return out
@@ -739,7 +762,8 @@ def _engine_extra():
             status[name] = "skipped: " + v[1:]
         else:
             chunks.append(f"/-- read from `{where}` -/\ndef {name} : {ty} := {v}\n")
-            status[name] = "translated"
+            unk = facts.get(name + ".unknown")
+            status[name] = "translated" if not unk else f"translated (undecided, model value kept: {unk})"
     try:
         from props.c15_engine import train_objects     # introspection of a real engine (harness side)
 
